@@ -104,6 +104,15 @@ def par(*jobs):
         return [f.result() for f in futs]
 
 
+ENTRY_CALL = {"Parse": "parse.Parse", "ParseWithInterners": "parse.ParseWithInterners", "New.Parse": "parse.New(..).Parse", "NewWithInterners.Parse": "parse.NewWithInterners(..).Parse",
+              "Reparse": "second Parse on a Tree that has parsed another text"}
+
+
+def via(v):
+    """the way into the parser a vector was handed to (chosen by the generator of the specification)"""
+    return ENTRY_CALL.get(v.get("entry", "Parse"), v.get("entry", "Parse"))
+
+
 def sigkey(sig):
     return json.dumps(sig, sort_keys=True)
 
@@ -166,14 +175,20 @@ def run_trace_tlc(ctx, module, cfg, trace, nchunks, split_key, timeout=1500):
     starts = [i for i, l in enumerate(lines) if split_key(l)]
     if not starts:
         return [], 0, 0, 0
-    per = max(1, -(-len(starts) // nchunks))
+    # chunks of about equal numbers of events (the runs differ a lot in length), cut at run boundaries
+    share = max(1, -(-(len(lines) - starts[0]) // nchunks))
+    cuts = [0]
+    for k in range(1, len(starts)):
+        if starts[k] - starts[cuts[-1]] >= share and len(cuts) < nchunks:
+            cuts.append(k)
+    cuts.append(len(starts))
     chunks = []
-    for c in range(0, len(starts), per):
-        a = starts[c]
-        b = starts[c + per] if c + per < len(starts) else len(lines)
+    for c0, c1 in zip(cuts, cuts[1:]):
+        a = starts[c0]
+        b = starts[c1] if c1 < len(starts) else len(lines)
         p = ctx.path("chunks", f"{module}_{len(chunks)}_{ctx.n_tlc}.ndjson")
         open(p, "w").write("\n".join(lines[a:b]) + "\n")
-        chunks.append((p, len(starts[c:c + per]), b - a))
+        chunks.append((p, c1 - c0, b - a))
 
     def one(ch):
         p, nruns, nev = ch
@@ -202,7 +217,7 @@ def run_trace_tlc(ctx, module, cfg, trace, nchunks, split_key, timeout=1500):
 
 # ============================================================================= C07
 def c07_sig_replay(v, r):
-    return dict(site="replay", what=r["verdict"], endsIn=v.get("endsIn", ""), inBlock=v.get("inBlock", False), ret=r["ret"])
+    return dict(site="replay", what=r["verdict"], endsIn=v.get("endsIn", ""), inBlock=v.get("inBlock", False), ret=r["ret"], entry=v.get("entry", "Parse"))
 
 
 def c07_sig_trace(f):
@@ -276,8 +291,9 @@ def run_c07(ctx):
     _, _, _, g, _ = par(mc, pin("YangLexerPinHang.cfg", "Temporal property ParserReturns was violated", "hang at the end of an unquoted word"),
                         pin("YangLexerPinLeak.cfg", "Temporal property NoLeak was violated", "lexer left blocked on its send"), gen, race_build)
     allfiles = vec_files(g["dir"])
-    # untraced: concatenations, absurd arguments, rules between statements (exits after the whole text was read), byte order mark
-    UNTRACED = ("vec_300.ndjson", "vec_400.ndjson", "vec_500.ndjson", "vec_700.ndjson")
+    # untraced: concatenations, absurd arguments, rules between statements (exits after the whole text was read), byte order mark,
+    # long runs of tokens that cover few or no bytes after an early error
+    UNTRACED = ("vec_300.ndjson", "vec_400.ndjson", "vec_500.ndjson", "vec_700.ndjson", "vec_800.ndjson")
     catfile = [f for f in allfiles if f.endswith(UNTRACED)]
     files = [f for f in allfiles if not f.endswith(UNTRACED)]
 
@@ -306,7 +322,7 @@ def run_c07(ctx):
     # worker stopped by the Go runtime or by the race detector (GORACE=halt_on_error=1): that is not a matter of timing.
     suspects = []
     KIND = {"vec_300.ndjson": "long-concatenations", "vec_400.ndjson": "absurd-argument", "vec_500.ndjson": "rule-between-statements (text read to its end)",
-            "vec_700.ndjson": "byte-order-mark"}
+            "vec_700.ndjson": "byte-order-mark", "vec_800.ndjson": "early-error-then-run-of-empty-tokens"}
     ckind = []
     for f in catfile:
         ckind += [KIND[os.path.basename(f)]] * len(read_ndjson(f))
@@ -315,9 +331,9 @@ def run_c07(ctx):
             tag = tag0 if tag0 != "untraced" else ckind[k] if k < len(ckind) else "long-and-absurd"
             if r["verdict"] in ("ok", "skipped"):
                 continue
-            sig = dict(site=tag, what=r["verdict"], ret=r["ret"])
-            what = f"Parse under {tag}: {r['verdict']} ({(r.get('err') or r.get('why') or '')[:160]}) on {show(v['text'], 80)!r}"
-            replay = dict(kind=tag, text=v["text"][:4000], shown=show(v["text"], 600), result=r,
+            sig = dict(site=tag, what=r["verdict"], ret=r["ret"], entry=v.get("entry", "Parse"))
+            what = f"{via(v)} under {tag}: {r['verdict']} ({(r.get('err') or r.get('why') or '')[:160]}) on {show(v['text'], 80)!r}"
+            replay = dict(kind=tag, text=v["text"][:4000], shown=show(v["text"], 600), result=r, entry=v.get("entry", "Parse"), first=v.get("first", []),
                           how="bin/check C07 (yp / ypt-race run7 on this text, GORACE=halt_on_error=1)")
             if r["verdict"] in ("crash", "data-race") and "worker silent" not in r.get("err", ""):
                 ctx.disagree(sig, what, replay)
@@ -349,11 +365,11 @@ def run_c07(ctx):
             fatal = any(k in r["verdict"] for k in ("hang", "crash", "panic", "data-race"))
             if i in byid and not fatal:      # a call that does not return is reported as that, whatever its events were
                 f = byid[i]
-                out[i] = (c07_sig_trace(f), f"trace rejected: {f['what']} (lexer {f['where']}) on {show(v['text'], 80)!r}",
-                          dict(kind="trace", text=v["text"], shown=show(v["text"]), failure=f, result=r))
+                out[i] = (dict(c07_sig_trace(f), entry=v.get("entry", "Parse")), f"{via(v)}: trace rejected: {f['what']} (lexer {f['where']}) on {show(v['text'], 80)!r}",
+                          dict(kind="trace", text=v["text"], shown=show(v["text"]), failure=f, result=r, entry=v.get("entry", "Parse"), first=v.get("first", [])))
             elif r["verdict"] not in ("ok", "skipped"):
-                out[i] = (c07_sig_replay(v, r), f"Parse: {r['verdict']} ({(r.get('err') or r.get('why') or '')[:160]}) on {show(v['text'], 80)!r}",
-                          dict(kind="replay", text=v["text"], shown=show(v["text"]), result=r, lines=v["lines"]))
+                out[i] = (c07_sig_replay(v, r), f"{via(v)}: {r['verdict']} ({(r.get('err') or r.get('why') or '')[:160]}) on {show(v['text'], 80)!r}",
+                          dict(kind="replay", text=v["text"], shown=show(v["text"]), result=r, lines=v["lines"], entry=v.get("entry", "Parse"), first=v.get("first", [])))
         return out
 
     def judge(suspects, tag):
@@ -423,11 +439,13 @@ def run_c07(ctx):
     cov = dict(evaluations=len(vecs), distinct_nontrivial=len(kinds),
                rule="vectors = every text over 15 character classes up to the length bound in several spellings + characters that alias structural ASCII "
                     "characters or are blanks to Unicode only, in every lexer state + TLC-sampled longer texts + repository YANG cut at random points "
-                    "(+ untraced: concatenations, absurd arguments, rules between statements, byte order mark); distinct = (state function in which the text ends, inside a block, last item)",
+                    "(+ untraced: concatenations, absurd arguments, rules between statements, byte order mark, long runs of empty tokens after an early error); the sampled, repository, "
+                    "absurd-argument and rule-between-statements texts also through the other ways into the parser (ParseWithInterners, New(..).Parse, NewWithInterners(..).Parse, second Parse on one Tree); distinct = (state function in which the text ends, inside a block, last item)",
                samples=[dict(text=show(v["text"], 120), endsIn=v["endsIn"], result=r["ret"]) for v, r in list(zip(vecs, results))[7::max(1, len(vecs) // 3)]][:3],
                mc_maxlen=6 if q else 12, trace_events=events, concatenation_texts=len(cvecs), race_detector_calls=len(rvecs),
                race_detector_skipped=sum(1 for r in rres if r["verdict"] == "skipped"), repo_texts=len(rts), truncated_texts=len(given),
                hang_budget_skipped=skipped, timing_unconfirmed=timing_unconfirmed, exhaustive=True,
+               calls_by_entry={e: sum(1 for v in list(vecs) + list(cvecs) if v.get("entry", "Parse") == e) for e in ENTRY_CALL},
                explanation="TLC explored the lexer/parser mechanism for every text to the length bound and every abort point (states), generated the "
                            "texts with their line geometry; every text was parsed by the real code under a watchdog with a goroutine dump, and the "
                            "channel events of every call were validated by YangLexerTrace")
@@ -438,6 +456,7 @@ def run_c07(ctx):
         "token boundaries that do not matter for C07 (word directly followed by a comment, // comment at the end of the text) are accepted either way by the trace validator (C10 judges them); Separator items on the channel are optional silent steps: the compared stream is that of the other items",
         "texts longer than the bound are sampled, not exhausted",
         "memory-level races between the lexer goroutine and the parser are outside the TLA+ model: a slice of the calls runs under the Go race detector (trusted observer)",
+        "the way into the parser (parse.Parse, ParseWithInterners, New(..).Parse, NewWithInterners(..).Parse, a second Parse on a Tree that has parsed another text) is part of the vector; the property is asked of the call under test, the position must lie in the text of that call",
     ])
 
 
@@ -448,8 +467,8 @@ def c08_sig(v, r):
     val = v["expect"]
     empty_line = any(val[i] == 10 and (i == 0 or val[i - 1] == 10 or (val[i - 1] == 13 and i >= 2 and val[i - 2] == 10) or (val[i - 1] == 13 and i == 1))
                      for i in range(len(val)))
-    return dict(site="decode", what=what, emptyLineInValue=empty_line, crlf=f["crlf"], leadingPlus=f["leadingPlus"],
-                multiLine=f["lines"] > 1, concatenated=len(f["forms"]) > 1)
+    return dict(site="decode", what=what, emptyLineInValue=empty_line, crlf=f["crlf"], leadingPlus=f["leadingPlus"], innerDQ=f.get("innerDQ", False),
+                multiLine=f["lines"] > 1, concatenated=len(f["forms"]) > 1, keyword=v.get("kw", "description"), entry=v.get("entry", "Parse"))
 
 
 def tree_trace_sig(f):
@@ -548,9 +567,9 @@ def run_c08(ctx):
         raise Infra(f"timing too unstable: {never} layouts were never executed because suspect cases that did not reproduce alone used up the budget twice")
     for i, rs in report:
         v, r = vecs[i], rs or results[i]
-        ctx.disagree(c08_sig(v, r), f"argument of {show(v['text'], 120)!r}: want {show(v['expect'], 60)!r} got {show(r.get('got', []), 60)!r} {r.get('err', '')}",
+        ctx.disagree(c08_sig(v, r), f"argument of the {v.get('kw', 'description')} statement in {show(v['text'], 120)!r} ({via(v)}): want {show(v['expect'], 60)!r} got {show(r.get('got', []), 60)!r} {r.get('err', '')}",
                      dict(kind="replay", text=v["text"], shown=show(v["text"]), want=v["expect"], got=r.get("got"), ret=r["ret"], err=r.get("err"),
-                          feat=v["feat"], how="bin/check C08 (yp run8 [-solo] on this vector)"))
+                          feat=v["feat"], entry=v.get("entry", "Parse"), first=v.get("first", []), how="bin/check C08 (yp run8 [-solo] on this vector)"))
     ctx.traces += len(events)
     for f in fails:
         e = events[f["id"] - 1]
@@ -559,10 +578,12 @@ def run_c08(ctx):
     shapes = {}
     for v in vecs:
         f = v["feat"]
-        shapes[("+".join(f["forms"]), f["lines"], f["emptyFirstLine"], f["blankMiddleLine"], f["crlf"], v["fam"])] = 1
-    cov = dict(evaluations=len(vecs), distinct_nontrivial=len(shapes), unjudged=unjudged, timing_unconfirmed=unconfirmed8, random_long_strings=len(events), long_strings_judged=judged,
+        shapes[("+".join(f["forms"]), f["lines"], f["emptyFirstLine"], f["blankMiddleLine"], f["crlf"], v["fam"], v.get("kw", "description"))] = 1
+    cov = dict(evaluations=len(vecs), distinct_nontrivial=len(shapes), unjudged=unjudged, keywords_carrying_arguments=len({v.get("kw", "description") for v in vecs}),
+               vectors_by_entry={e: sum(1 for v in vecs if v.get("entry", "Parse") == e) for e in ENTRY_CALL}, timing_unconfirmed=unconfirmed8, random_long_strings=len(events), long_strings_judged=judged,
                rule="vectors = layouts enumerated by YangStringGen (two- and three-line strings x quote column x indentation x trailing blanks x LF/CRLF, "
-                    "plain forms, concatenations with trivia) + TLC-sampled layouts; distinct = (quoting forms, lines, empty first line, blank middle line, CRLF, family)",
+                    "plain forms, concatenations with trivia, unquoted words with every punctuation character, statements of ~45 kinds as carriers of typed and free argument texts in every "
+                    "quoting form and cut in two) + TLC-sampled layouts; distinct = (quoting forms, lines, empty first line, blank middle line, CRLF, family, keyword)",
                samples=[dict(text=show(v["text"], 200), value=show(v["expect"], 80)) for v in vecs[5::max(1, len(vecs) // 3)]][:3],
                exhaustive=True,
                explanation="TLC evaluated RFC 6020 6.1.3 (YangString.tla) on every enumerated layout; each was parsed by the real code and "
@@ -573,6 +594,8 @@ def run_c08(ctx):
         "only space and tab are blanks: every other character that Unicode classes as white space is an ordinary character of the string",
         "the column of the opening quote is counted in characters: a tab takes 8 columns, any other character (1 to 4 bytes) takes 1",
         "a tab counts as 8 columns (property statement), not as a tab stop",
+        "unquoted strings as RFC 6020 6.1.3 defines them: every character but blanks, line breaks, ; { } and the comment sequences is an ordinary character (quotes after the first character included); a word that starts with a quote is not judged",
+        "the carriers of families 34/35 hold only arguments that are legal for their statement (RFC 6020 section 12; regular expressions within what Go's regexp knows): a rejected carrier is reported as a disagreement",
     ])
 
 
@@ -582,7 +605,7 @@ def c10_sig(v, r):
         what = "rejected" if r["ret"] == "err" else r["ret"]
     else:
         what = r["diff"]["field"]
-    return dict(site="replay", what=what, wordThenComment=v["wordThenComment"], lineCommentAtEnd=v["lineCommentAtEnd"], layout=v["feat"]["kind"])
+    return dict(site="replay", what=what, wordThenComment=v["wordThenComment"], lineCommentAtEnd=v["lineCommentAtEnd"], layout=v["feat"]["kind"], entry=v.get("entry", "Parse"))
 
 
 def run_c10(ctx):
@@ -625,14 +648,16 @@ def run_c10(ctx):
         # event order: each original directly followed by its variants (chunks are cut at originals)
         order = []
         for b in base:
-            order.append(dict(text=b["text"], base=0))
+            order.append(dict(text=b["text"], base=0, entry="Parse", first=[]))
             pos = len(order)
-            order += [dict(text=x["text"], base=pos) for x in relaid if x["base"] == b["id"]]
+            # the spec names the way into the parser for every re-laid-out text; a second Parse on the same Tree comes after the original
+            order += [dict(text=x["text"], base=pos, entry=x.get("entry", "Parse"), first=b["text"] if x.get("entry") == "Reparse" else [])
+                      for x in relaid if x["base"] == b["id"]]
         ip = ctx.path("in10t.ndjson")
-        write_ndjson(ip, [dict(text=o["text"], hasTree=False) for o in order])
+        write_ndjson(ip, [dict(text=o["text"], hasTree=False, entry=o["entry"], first=o["first"]) for o in order])
         res3 = ctx.path("res10t.ndjson")
         ctx.run_bin("yp", ["run10", "-out", res3, "-workers", "6", ip], timeout=600)
-        events = [dict(id=i + 1, text=o["text"], ret=x["r"]["ret"], walked=x["r"].get("walked"), base=o["base"])
+        events = [dict(id=i + 1, text=o["text"], ret=x["r"]["ret"], walked=x["r"].get("walked"), base=o["base"], entry=o["entry"])
                   for i, (o, x) in enumerate(zip(order, read_ndjson(res3)))]
         fails, judged = tree_trace(ctx, events, 6)
         return base, relaid, events, fails, judged
@@ -660,8 +685,8 @@ def run_c10(ctx):
         raise Infra(f"timing too unstable: {never} layouts were never executed because suspect cases that did not reproduce alone used up the budget twice")
     for i, rs in report:
         v, r = vecs[i], rs or results[i]
-        ctx.disagree(c10_sig(v, r), f"tree of {show(v['text'], 120)!r}: {r.get('diff') or r.get('err')}",
-                     dict(kind="replay", text=v["text"], shown=show(v["text"], 2000), diff=r.get("diff"), ret=r["ret"], err=r.get("err"),
+        ctx.disagree(c10_sig(v, r), f"tree of {show(v['text'], 120)!r} ({via(v)}): {r.get('diff') or r.get('err')}",
+                     dict(kind="replay", text=v["text"], shown=show(v["text"], 2000), diff=r.get("diff"), ret=r["ret"], err=r.get("err"), entry=v.get("entry", "Parse"), first=v.get("first", []),
                           feat=v["feat"], how="bin/check C10 (yp run10 [-solo] on this vector)"))
     for i in layout_dis:
         v = vecs[i]
@@ -670,12 +695,13 @@ def run_c10(ctx):
     ctx.traces += len(events)
     for f in fails:
         e = events[f["id"] - 1]
-        ctx.disagree(tree_trace_sig(f), f"repository text{' (re-laid-out)' if f['relaid'] else ''}: {f['what']}",
-                     dict(kind="trace", text=e["text"], shown=show(e["text"], 2500), failure=f, how="bin/check C10 (YangTreeRelay / yp run10 / YangTreeTrace)"))
+        ctx.disagree(dict(tree_trace_sig(f), entry=e.get("entry", "Parse")), f"repository text{' (re-laid-out)' if f['relaid'] else ''} ({via(e)}): {f['what']}",
+                     dict(kind="trace", text=e["text"], shown=show(e["text"], 2500), failure=f, entry=e.get("entry", "Parse"), how="bin/check C10 (YangTreeRelay / yp run10 / YangTreeTrace)"))
     trees = {(v["fam"], v["tid"]) for v in vecs}
     kinds = {(v["feat"]["kind"], v["feat"]["slot"], v["feat"]["pick"]) for v in vecs}
     cov = dict(evaluations=len(vecs), distinct_nontrivial=len(trees) * len(kinds), trees=len(trees), layout_kinds=len(kinds),
-               unjudged_arguments=sum(1 for v in vecs if not v["judged"]), timing_unconfirmed=unconfirmed10, repo_texts=len(base), relaid_texts=len(relaid), repo_events_judged=judged,
+               unjudged_arguments=sum(1 for v in vecs if not v["judged"]), timing_unconfirmed=unconfirmed10,
+               vectors_by_entry={e: sum(1 for v in vecs if v.get("entry", "Parse") == e) for e in ENTRY_CALL}, repo_texts=len(base), relaid_texts=len(relaid), repo_events_judged=judged,
                rule="vectors = trees x (compact layout, every trivia at every used token boundary one at a time, every quoting form of every argument, "
                     "every trailing trivia, TLC-sampled full layouts); distinct = trees x (layout kind, boundary slot, pick)",
                samples=[dict(text=show(v["text"], 200)) for v in vecs[11::max(1, len(vecs) // 3)]][:3], exhaustive=True,
@@ -687,6 +713,7 @@ def run_c10(ctx):
         "byte columns of keywords are judged only where the line prefix is ASCII; the implicit case the parser wraps around a shorthand member of a choice counts as the member (same position, same argument), order and identity of the children are judged",
         "a text the spec cannot read as one statement, and a text the code rejects on its own, are not judged here (C09)",
         "a byte order mark at the start of the text: whether it belongs to the first keyword is not judged (both readings accepted), positions refer to the text as handed to Parse",
+        "the way into the parser is part of the vector (parse.Parse, ParseWithInterners, New(..).Parse, NewWithInterners(..).Parse, a second Parse on a Tree that has parsed another text): tree and positions are those of the text of the call under test; a panic while walking an accepted tree is a disagreement",
     ])
 
 
@@ -699,17 +726,17 @@ MANIFEST = {
              "item, finish after EOF) over an unbuffered channel; TLC checks under fairness that both end on every text over 15 character classes to "
              "length 6/12 and every abort point, that nothing is left when Parse returns, and that the constants describing the pinned code produce the "
              "hang and the leak. Every class string to length 3/4 in several spellings, sampled longer texts and repository YANG cut at random points "
-             "are parsed by the real code under a watchdog with a goroutine dump (error names the input and a position inside it, or root set), as are characters whose low 7/8/16 bits alias structural ASCII characters in every lexer state and complete modules that fail only after the last token (scoping rules between statements); "
+             "are parsed by the real code under a watchdog with a goroutine dump (error names the input and a position inside it, or root set) - through parse.Parse and through the other exported ways into the parser (ParseWithInterners, New(..).Parse, NewWithInterners(..).Parse, a second Parse on the same Tree) -, as are texts whose early error is followed by runs of 1..400 tokens that cover no bytes (empty strings, concatenations, empty statements, braces: the goroutine dump after the return decides), characters whose low 7/8/16 bits alias structural ASCII characters in every lexer state and complete modules that fail only after the last token (scoping rules between statements); "
              "the hook events of every call are validated against the mechanism by YangLexerTrace.",
              note="needs the lexer hooks; token boundaries irrelevant to C07 are accepted either way in the trace; a slice of the calls runs under the Go race detector (ypt built with -race)", design="4 C07", technique=YP),
  "C08": dict(text="YangString.tla defines the RFC 6020 6.1.3 value of a string argument (quote column with tab = 8, indentation and trailing-blank "
              "stripping, the four escapes, concatenation); TLC enumerates layouts (quote column, indents of spaces and tabs around it, trailing blanks, "
-             "LF/CRLF, empty and blank lines, escapes, comments inside quotes, trivia around +, Unicode-only blanks and stray CRs at line edges) with their values; the real parser's "
+             "LF/CRLF, empty and blank lines, escapes, comments inside quotes, trivia around +, Unicode-only blanks and stray CRs at line edges, unquoted words with every ASCII punctuation character and characters beyond ASCII inside and at their end, statements of some 45 kinds - with typed arguments (pattern, range, length, key, path, must, when, dates, identifiers, numbers ...) and with free text - carrying the same argument texts in every quoting form and cut into two pieces, through every exported way into the parser) with their values; the real parser's "
              "Argument().String() is compared code point by code point; long random strings are decoded by the spec from the same text.",
              note="judged only where substituting escapes before or after stripping gives the same value (RFC 6020 is silent); quote column in characters (tab 8, else 1)", design="4 C08", technique=YP),
  "C10": dict(text="YangTree.tla renders statement trees with any trivia at every token boundary and any quoting form of every argument, and reads texts "
              "back (intended lexer + RFC 6020 statement grammar); TLC checks the reader inverts the rendering on every generated layout; the real "
              "parser's tree, walked through the public API, must equal the source tree (keywords, decoded arguments, order, nesting, line:column) and "
-             "all layouts of one tree must agree up to positions; blocks of 1..80 (thorough ..300) statements followed by further blocks and texts starting with a byte order mark keep every statement at its place in the text handed to Parse; the same raw multi-line string at several quote columns must decode per occurrence; repository YANG and TLC's re-laid-out forms are judged by the spec reading the same text.",
+             "all layouts of one tree must agree up to positions, through parse.Parse and through the other exported ways into the parser (New(..).Parse, NewWithInterners(..).Parse, ParseWithInterners, a second Parse on a Tree that has parsed another text: positions are those of the text of this call); blocks of 1..80 (thorough ..300) statements followed by further blocks and texts starting with a byte order mark keep every statement at its place in the text handed to Parse; the same raw multi-line string at several quote columns must decode per occurrence; repository YANG and TLC's re-laid-out forms are judged by the spec reading the same text.",
              note="open finding: a comment directly after an unquoted word is swallowed into the word; implicit case wrappers count as their member", design="4 C10", technique=YP),
 }
